@@ -438,94 +438,7 @@ func runC04(c *Ctx) {
 	})
 
 	// ---- R-C04-CLEAR
-	c.Group("R-C04-CLEAR", "Cache.Clear", func() {
-		fn := P.Fn("ristretto", "Cache", "Clear")
-		L.Analysed(fname(fn))
-		tb := newTB(fn)
-		var sel *ssa.Select
-		for _, r := range recvsIn(fn) {
-			if r.Sel != nil && Match("fld[setBuf](p[0])", tb.T(r.Chan), nil) {
-				sel = r.Sel
-			}
-		}
-		if sel == nil || sel.Blocking {
-			L.Fail("R-C04-CLEAR", "Cache.Clear#drain", "no non-blocking drain loop on setBuf", fn.Pos())
-			return
-		}
-		I := tb.T(selectRecvValue(sel, 0)).String()
-		itemUpdate := P.Const("ristretto", "itemUpdate").Value.Value.ExactString()
-		paths, ok := explore(fn, tb, ExploreOpts{Start: after(sel), StopAt: isInstr(sel), TrackField: trackItemFlag})
-		if !ok {
-			L.Undecided("R-C04-CLEAR", "Cache.Clear#drain", "too many paths", fn.Pos())
-			return
-		}
-		good := true
-		kinds := map[string]int{}
-		for _, p := range paths {
-			if !p.SelectTaken(sel, 0) {
-				continue
-			}
-			if p.End != ssa.Instruction(sel) {
-				good = false
-				L.Fail("R-C04-CLEAR", "Cache.Clear#drain", "a drained item leads out of the drain loop (block path "+p.BlockPath()+"): later buffered items are never released", sel.Pos())
-				continue
-			}
-			hands := handOversOnPath(p, tb)
-			nEv := countCalls(p, tb, "call[dyn](fld[onEvict](p[0]),"+I+")", nil)
-			where := "(block path " + p.BlockPath() + ")"
-			switch {
-			case p.CondHeld(tb, "ne(fld[wait]("+I+"),c[nil])", nil) == 1:
-				kinds["marker"]++
-				if countCalls(p, tb, "call[close](fld[wait]("+I+"))", nil) != 1 || len(hands) != 0 {
-					good = false
-					L.Fail("R-C04-CLEAR", "Cache.Clear#drain", "a buffered Wait marker must be closed and nothing else "+where, sel.Pos())
-				}
-			case p.CondHeld(tb, "eq(fld[flag]("+I+"),c["+itemUpdate+"])", nil) == 1:
-				kinds["update"]++
-				if len(hands) != 0 {
-					good = false
-					L.Fail("R-C04-CLEAR", "Cache.Clear#drain", "a buffered update is reported although its value lives in the map and will be reported by store.Clear again "+where, sel.Pos())
-				}
-			case p.CondHeld(tb, "eq(fld[flag]("+I+"),c["+itemUpdate+"])", nil) == -1:
-				kinds["other"]++
-				if nEv != 1 || len(hands) != 1 {
-					good = false
-					L.Fail("R-C04-CLEAR", "Cache.Clear#drain", fmt.Sprintf("a buffered non-update item is reported %d time(s) (callbacks %d), want exactly once %s", nEv, len(hands), where), sel.Pos())
-				}
-			default:
-				good = false
-				L.Fail("R-C04-CLEAR", "Cache.Clear#drain", "drained item is handled without testing flag against itemUpdate "+where, sel.Pos())
-			}
-		}
-		if good {
-			if kinds["marker"] == 0 || kinds["update"] == 0 || kinds["other"] == 0 {
-				L.Undecided("R-C04-CLEAR", "Cache.Clear#drain", fmt.Sprintf("drain paths found: %v", kinds), sel.Pos())
-			} else {
-				L.Ok("R-C04-CLEAR", "Cache.Clear#drain", "markers closed, updates skipped, every other buffered item reported exactly once", sel.Pos())
-			}
-		}
-		// store.Clear(c.onEvict) and policy.Clear on every path after the handshake
-		var firstSend ssa.Instruction
-		for _, s := range sendsIn(fn) {
-			if Match("fld[stop](p[0])", tb.T(s.Chan), nil) {
-				firstSend = s.In
-			}
-		}
-		if firstSend == nil {
-			L.Fail("R-C04-CLEAR", "Cache.Clear#storeclear", "no stop handshake", fn.Pos())
-			return
-		}
-		isStoreClear := func(in ssa.Instruction) bool {
-			c, ok := in.(*ssa.Call)
-			return ok && Match("call[iface:store.Clear](fld[storedItems](p[0]),fld[onEvict](p[0]))", tb.T(c), nil)
-		}
-		badRet, path := mustPass(after(firstSend), isStoreClear, nil)
-		if badRet != nil {
-			L.Fail("R-C04-CLEAR", "Cache.Clear#storeclear", "a path through Clear returns without storedItems.Clear(c.onEvict) (block path "+pathString(path)+"): resident values are never released", instrPos(badRet))
-		} else {
-			L.Ok("R-C04-CLEAR", "Cache.Clear#storeclear", "storedItems.Clear(c.onEvict) on every path", firstSend.Pos())
-		}
-	})
+	clearDrainRule(c, "R-C04-CLEAR")
 	c.Group("R-C04-CLEAR", "lockedMap.Clear", func() {
 		fn := P.Fn("ristretto", "lockedMap", "Clear")
 		L.Analysed(fname(fn))
@@ -771,6 +684,100 @@ func sweepOnceRule(c *Ctx, ruleID string) {
 			L.Undecided(ruleID, "expirationMap.cleanup", "no removing path found in the sweep", next.Pos())
 		} else if good {
 			L.Ok(ruleID, "expirationMap.cleanup", fmt.Sprintf("one policy.Del, one store.Del, one report per swept key (%d paths)", n), next.Pos())
+		}
+	})
+}
+
+// clearDrainRule: Cache.Clear's drain loop (markers closed, updates skipped, other
+// buffered items reported once) and store.Clear(c.onEvict) on every path. Shared by C04 and C15.
+func clearDrainRule(c *Ctx, ruleID string) {
+	L, P := c.L, c.P
+	c.Group(ruleID, "Cache.Clear", func() {
+		fn := P.Fn("ristretto", "Cache", "Clear")
+		L.Analysed(fname(fn))
+		tb := newTB(fn)
+		var sel *ssa.Select
+		for _, r := range recvsIn(fn) {
+			if r.Sel != nil && Match("fld[setBuf](p[0])", tb.T(r.Chan), nil) {
+				sel = r.Sel
+			}
+		}
+		if sel == nil || sel.Blocking {
+			L.Fail(ruleID, "Cache.Clear#drain", "no non-blocking drain loop on setBuf", fn.Pos())
+			return
+		}
+		I := tb.T(selectRecvValue(sel, 0)).String()
+		itemUpdate := P.Const("ristretto", "itemUpdate").Value.Value.ExactString()
+		paths, ok := explore(fn, tb, ExploreOpts{Start: after(sel), StopAt: isInstr(sel), TrackField: trackItemFlag})
+		if !ok {
+			L.Undecided(ruleID, "Cache.Clear#drain", "too many paths", fn.Pos())
+			return
+		}
+		good := true
+		kinds := map[string]int{}
+		for _, p := range paths {
+			if !p.SelectTaken(sel, 0) {
+				continue
+			}
+			if p.End != ssa.Instruction(sel) {
+				good = false
+				L.Fail(ruleID, "Cache.Clear#drain", "a drained item leads out of the drain loop (block path "+p.BlockPath()+"): later buffered items are never released", sel.Pos())
+				continue
+			}
+			hands := handOversOnPath(p, tb)
+			nEv := countCalls(p, tb, "call[dyn](fld[onEvict](p[0]),"+I+")", nil)
+			where := "(block path " + p.BlockPath() + ")"
+			switch {
+			case p.CondHeld(tb, "ne(fld[wait]("+I+"),c[nil])", nil) == 1:
+				kinds["marker"]++
+				if countCalls(p, tb, "call[close](fld[wait]("+I+"))", nil) != 1 || len(hands) != 0 {
+					good = false
+					L.Fail(ruleID, "Cache.Clear#drain", "a buffered Wait marker must be closed and nothing else "+where, sel.Pos())
+				}
+			case p.CondHeld(tb, "eq(fld[flag]("+I+"),c["+itemUpdate+"])", nil) == 1:
+				kinds["update"]++
+				if len(hands) != 0 {
+					good = false
+					L.Fail(ruleID, "Cache.Clear#drain", "a buffered update is reported although its value lives in the map and will be reported by store.Clear again "+where, sel.Pos())
+				}
+			case p.CondHeld(tb, "eq(fld[flag]("+I+"),c["+itemUpdate+"])", nil) == -1:
+				kinds["other"]++
+				if nEv != 1 || len(hands) != 1 {
+					good = false
+					L.Fail(ruleID, "Cache.Clear#drain", fmt.Sprintf("a buffered non-update item is reported %d time(s) (callbacks %d), want exactly once %s", nEv, len(hands), where), sel.Pos())
+				}
+			default:
+				good = false
+				L.Fail(ruleID, "Cache.Clear#drain", "drained item is handled without testing flag against itemUpdate "+where, sel.Pos())
+			}
+		}
+		if good {
+			if kinds["marker"] == 0 || kinds["update"] == 0 || kinds["other"] == 0 {
+				L.Undecided(ruleID, "Cache.Clear#drain", fmt.Sprintf("drain paths found: %v", kinds), sel.Pos())
+			} else {
+				L.Ok(ruleID, "Cache.Clear#drain", "markers closed, updates skipped, every other buffered item reported exactly once", sel.Pos())
+			}
+		}
+		// store.Clear(c.onEvict) and policy.Clear on every path after the handshake
+		var firstSend ssa.Instruction
+		for _, s := range sendsIn(fn) {
+			if Match("fld[stop](p[0])", tb.T(s.Chan), nil) {
+				firstSend = s.In
+			}
+		}
+		if firstSend == nil {
+			L.Fail(ruleID, "Cache.Clear#storeclear", "no stop handshake", fn.Pos())
+			return
+		}
+		isStoreClear := func(in ssa.Instruction) bool {
+			c, ok := in.(*ssa.Call)
+			return ok && Match("call[iface:store.Clear](fld[storedItems](p[0]),fld[onEvict](p[0]))", tb.T(c), nil)
+		}
+		badRet, path := mustPass(after(firstSend), isStoreClear, nil)
+		if badRet != nil {
+			L.Fail(ruleID, "Cache.Clear#storeclear", "a path through Clear returns without storedItems.Clear(c.onEvict) (block path "+pathString(path)+"): resident values are never released", instrPos(badRet))
+		} else {
+			L.Ok(ruleID, "Cache.Clear#storeclear", "storedItems.Clear(c.onEvict) on every path", firstSend.Pos())
 		}
 	})
 }
